@@ -124,3 +124,73 @@ def reached_functions(ctx, mux_only=False):
     for fns in reached_by_site(ctx, mux_only).values():
         out |= fns
     return out
+
+
+def settled_params(ctx, rel, qualname):
+    """{parameter: literal value} for the parameters of the function rel::qualname that have a literal default (or a module constant
+    bound once to a literal) which every call of that function inside rxsci leaves alone or repeats literally.  Such a parameter is a
+    named constant as far as the repository is concerned: a rule may read it as its value.  A parameter some caller sets to anything
+    else stays symbolic (the rule then sees the handler's own tests on it)."""
+    import ast as _ast
+    from ..loader import dotted_name
+    m, fn = ctx.function(rel, qualname)
+
+    def literal(mod, node):
+        try:
+            return True, _ast.literal_eval(node)
+        except Exception:
+            pass
+        dn = dotted_name(node) if isinstance(node, (_ast.Name, _ast.Attribute)) else None
+        if dn:
+            ref = ctx.program.resolve_dotted(mod, dn)
+            if ref and ref[0] == "assign" and ref[1].bind_count.get(dn.split(".")[-1], 0) == 1:
+                try:
+                    return True, _ast.literal_eval(ref[2])
+                except Exception:
+                    return False, None
+        return False, None
+    a = fn.args
+    pos = [x.arg for x in a.posonlyargs + a.args]
+    cand = {}
+    for arg, d in list(zip(a.args[len(a.args) - len(a.defaults):], a.defaults)) + [(x, d) for x, d in zip(a.kwonlyargs, a.kw_defaults) if d is not None]:
+        ok, v = literal(m, d)
+        if ok:
+            cand[arg.arg] = v
+    if not cand:
+        return {}
+    target = "%s.%s" % (m.name, qualname)
+    for rel2, m2 in ctx.program.by_relpath.items():
+        for n in _ast.walk(m2.tree):
+            if not isinstance(n, _ast.Call):
+                continue
+            dn = dotted_name(n.func)
+            if dn is None or dn.split(".")[-1] != qualname.split(".")[-1]:
+                continue
+            ref = ctx.program.resolve_dotted(m2, dn)
+            if not ref or ref[0] != "def" or ref[2] is not fn:
+                continue
+            given = {}
+            for k, x in enumerate(n.args):
+                if isinstance(x, _ast.Starred):
+                    return {}
+                if k < len(pos):
+                    given[pos[k]] = x
+            for kw in n.keywords:
+                if kw.arg is None:
+                    return {}
+                given[kw.arg] = kw.value
+            for name in list(cand):
+                if name in given:
+                    ok, v = literal(m2, given[name])
+                    if not ok or v != cand[name]:
+                        del cand[name]
+    return cand
+
+
+def with_settled(term, consts):
+    """the term with the settled parameters replaced by their literal value"""
+    if not consts or not isinstance(term, tuple):
+        return term
+    if term and term[0] in ("param", "free", "arg") and len(term) > 1 and term[1] in consts:
+        return ("const", consts[term[1]])
+    return tuple(with_settled(x, consts) if isinstance(x, tuple) else x for x in term)
